@@ -1,6 +1,31 @@
 """What is claimed, per property (input of mkmanifest.py)."""
 
 CLAIMED = {
+    "C05": {
+        "ref": "DESIGN.md §4.1",
+        "technique": "deterministic simulation: generated catch/finally "
+                     "nests with a fault injected at every stream effect "
+                     "site, event history checked against a reference model",
+        "text": "Seeded search over generated nests (depth <= 4) of "
+                "do/catch/finally blocks inside functions and for/while/"
+                "stream loops, with planned errors of every data kind and "
+                "runtime faults, handlers and finally parts that raise or "
+                "return. Each nest is run fault-free, with every single "
+                "fault position (k-th stream write or read fails), sampled "
+                "double faults and, in the thorough tier, errors injected "
+                "at arbitrary evaluation steps; the recorded event history "
+                "(enter/handler/finally marks) and the outcome are compared "
+                "exactly with a reference model, plus model-independent "
+                "enter/finally matching on the history. Evidence, not "
+                "proof.",
+        "note": "Trusted: the reference model's block semantics "
+                "(simckl/lang.py Machine.block), the simulated stream "
+                "objects, sys.monitoring for step faults. return/break/"
+                "continue directly inside a finally part and control values "
+                "bound by def are unspecified and not generated. eval() and "
+                "other built-ins that re-wrap errors are outside the "
+                "generated grammar.",
+    },
     "C10": {
         "ref": "DESIGN.md §4.3",
         "technique": "deterministic simulation: seeded session histories "
@@ -28,7 +53,6 @@ CLAIMED = {
 }
 
 PENDING = {
-    "C05": "claimed in DESIGN.md §4.1; check not built yet",
     "C09": "claimed in DESIGN.md §4.2; check not built yet",
     "C11": "claimed in DESIGN.md §4.4; check not built yet",
     "C12": "claimed in DESIGN.md §4.5; check not built yet",
